@@ -556,7 +556,7 @@ def _build_real(kind, trace, now, scen=None):
         import trio._core._run as _trun
 
         rev = (scen or {}).get("order", "asc") == "desc"
-        _trun._r = types.SimpleNamespace(random=(lambda: 0.0) if rev else (lambda: 1.0), shuffle=lambda batch: None)
+        _trun._r = types.SimpleNamespace(random=(lambda: 0.0) if rev else (lambda: 1.0), shuffle=lambda batch: None, uniform=lambda a, b: a)
         orig_run = trio.run
 
         class RecInstrument(trio.abc.Instrument):
